@@ -63,6 +63,8 @@ var cmdStdin = []string{
 	`{"a":`,
 	``,
 	`"scalar"`,
+	// a 100 KB document (pipe buffers, bufio sizes)
+	`{"a":[` + strings.Repeat(`{"k":"v<%d"},`, 6000) + `0],"k":[1]}`,
 }
 
 type CmdCase struct {
@@ -327,6 +329,24 @@ func runCmdx(ctx *core.Ctx, tier string) {
 		}
 	}
 	rec(nil)
+	// long lists: the same two valid files alternating 10 and 33 times, and one with a failing file in the middle
+	idxOf := func(name string) int {
+		for i, f := range cmdMenu {
+			if f.Name == name {
+				return i
+			}
+		}
+		panic(name)
+	}
+	for _, n := range []int{10, 33} {
+		var l []int
+		for i := 0; i < n; i++ {
+			l = append(l, idxOf([]string{"ok1.json", "after1.json", "ok2.json"}[i%3]))
+		}
+		lists = append(lists, l)
+		mid := append(append(append([]int(nil), l[:n/2]...), idxOf("failtest.json")), l[n/2:]...)
+		lists = append(lists, mid)
+	}
 	var units []unit
 	for _, b := range []string{"v5", "v4"} {
 		if env.bins[b] == "" {
